@@ -861,9 +861,10 @@ func (w *World) ruleFirstReceiptConsumed(rule string, d *dkgAnchors, sys map[str
 				if !in {
 					continue
 				}
+				// acted: some effect below the public handler (in the intake function or a helper it calls)
 				acted := false
 				for _, e := range t.Out.Effects {
-					if strings.HasSuffix(e.Fn, ")."+r.trace) {
+					if !strings.HasSuffix(e.Fn, ")."+t.Method) {
 						acted = true
 					}
 				}
@@ -1403,6 +1404,9 @@ func ruleC07(w *World) {
 	w.floor("C07.R11", 10)
 	w.ruleDisqualificationRules("C07.R11", d)
 	sys := d.systems(w)
+	// R13: shape of the dealer (share of participant j is P(j+1), goes to slot / recipient j, all participants covered)
+	w.floor("C07.R13", 8)
+	w.ruleDealingShape("C07.R13", d.m.idxOwn)
 	// R12: only the first share / vector is ever processed (a later one cannot replace a corrected share)
 	w.floor("C07.R12", 4)
 	w.ruleFirstReceiptConsumed("C07.R12", d, sys)
